@@ -16,10 +16,9 @@ every nesting depth, every input list, every flag set of the property, every fue
 element library: nothing in the proofs looks inside `CoreLib.elemFn`, so they cover every element whose table
 entry is the `process_element` boilerplate of a first-order function (237 entries of the current table).
 
-Stage reached: closures — lambdas (plain, map, filter, sort) with the call protocol — on top of the closure-free fragment (literals, first-order elements, the 21 hand-written stack / context /
+Stage reached: closures — lambdas (plain, map, filter, sort) with the call protocol — and list literals, on top of the closure-free fragment (literals, first-order elements, the 21 hand-written stack / context /
 input / register / printing templates of the closed core, variables, `if` chains, `for`, `while`, break / continue,
-the implicit output).  The full statement — the same for named functions, list
-literals and modifiers too — is `compile_correct` below as a comment; what is proved is named `…_partial_no_functions`.
+the implicit output).  The full statement — the same for named functions and modifiers too — is `compile_correct` below as a comment; what is proved is named `…_partial_no_functions`.
 The remaining constructs are executable in both interpreters and compared on every generated program by the
 `py-vs-ref`, `py` and `ref` streams of the check.
 -/
@@ -59,7 +58,7 @@ theorem compile_correct (cfg env) (hE : cfg.elements = env.elements) (hM : cfg.m
     (prog : List Structure) (code) (ht : transpileAst env prog = .ok code) (fuel flags inputs obs)
     (hr : refProgram cfg fuel flags inputs prog = .ok obs) : pyProgram cfg fuel flags inputs code = .ok obs
 
-Proved below for the fragment without named functions, list literals and modifiers (those are covered by the three
+Proved below for the fragment without named functions and modifiers (those are covered by the three
 correspondence streams).
 -/
 
@@ -101,7 +100,7 @@ theorem compile_correct_partial_no_functions (cfg : Cfg) (env : TEnv) (hE : cfg.
       | ret v => simp at hr
 
 /-- the fragment is not empty: `3(n2%[+|-X]:,){←a|←a‹→a}λ2|+[X];†ƛnd;` — `n`, a dyad, an `if` with a break inside a
-    `for`, duplicate and print, a `while` on a variable, a lambda with an early return called at once, a map lambda -/
+    `for`, duplicate and print, a `while` on a variable, a lambda with an early return called at once, a map lambda, a list literal `⟨1|:+|⟩` -/
 example : Frag Gen.elements
     [ .generic ⟨.number, [51]⟩,
       .forS [] [ .generic ⟨.general, [110]⟩, .generic ⟨.number, [50]⟩, .generic ⟨.general, [37]⟩,
@@ -109,7 +108,8 @@ example : Frag Gen.elements
                  .generic ⟨.general, [58]⟩, .generic ⟨.general, [44]⟩ ],
       .whileS (some [.generic ⟨.vget, [97]⟩]) [.generic ⟨.vget, [97]⟩, .generic ⟨.general, [8249]⟩, .generic ⟨.vset, [97]⟩],
       .lam (some 2) [.generic ⟨.general, [43]⟩, .ifS [[.brk .lam]]], .generic ⟨.general, [8224]⟩,
-      .lamOp .lmap [.generic ⟨.general, [110]⟩, .generic ⟨.general, [100]⟩] ] := by
+      .lamOp .lmap [.generic ⟨.general, [110]⟩, .generic ⟨.general, [100]⟩],
+      .listS [[.generic ⟨.number, [49]⟩], [.generic ⟨.general, [58]⟩, .generic ⟨.general, [43]⟩], []] ] := by
   decide +kernel
 
 /-- how much of the current element table the parametric element lemma covers -/
